@@ -62,7 +62,7 @@ def op (st : St) (toks : List String) : St × String :=
       let (s', e) := Flat.step m st.s (.add id v)
       let live' := Flat.specStep m st.s.dim st.live (.add id v)
       let st' := { st with s := s', live := live', added := id :: st.added }
-      if post == [errName e] then (st', "ok") else (st', s!"DIFF add model={errName e} impl={post}")
+      if outcomeAgrees post (errName e) then (st', agreedReply (post.headD "ok")) else (st', s!"DIFF add model={errName e} impl={post}")
     | _, _ => (st, "BADOP add")
   | ["remove", id] =>
     match id.toNat? with
@@ -70,12 +70,12 @@ def op (st : St) (toks : List String) : St × String :=
       let (s', e) := Flat.step m st.s (.remove id)
       let live' := Flat.specStep m st.s.dim st.live (.remove id)
       let st' := { st with s := s', live := live' }
-      if post == [errName e] then (st', "ok") else (st', s!"DIFF remove model={errName e} impl={post}")
+      if outcomeAgrees post (errName e) then (st', agreedReply (post.headD "ok")) else (st', s!"DIFF remove model={errName e} impl={post}")
     | none => (st, "BADOP remove")
   | ["flush"] =>
     let (s', e) := Flat.step m st.s .flush
     let st' := { st with s := s' }
-    if post == [errName e] then (st', "ok") else (st', s!"DIFF flush model={errName e} impl={post}")
+    if outcomeAgrees post (errName e) then (st', agreedReply (post.headD "ok")) else (st', s!"DIFF flush model={errName e} impl={post}")
   | ["vecs"] =>
     -- stored (preprocessed) vectors exported by the implementation, in slice order
     let impl := post.filterMap fun t => match t.splitOn ":" with
@@ -90,8 +90,7 @@ def op (st : St) (toks : List String) : St × String :=
     | some k, some thr, some filt, some agg, some q =>
       let model := Flat.execute m st.s [q] [] k thr filt agg
       match post, model with
-      | ["err", e], .error me =>
-        if e == errName (some me) then (st, "ok err") else (st, s!"DIFF search-err model={errName (some me)} impl={e}")
+      | ["err", e], .error _ => (st, agreedErr e)   -- which error: not part of the property (Proto.sameOutcome)
       | ["err", e], .ok _ => (st, s!"DIFF search model=ok impl=err:{e}")
       | "ok" :: _, .error me => (st, s!"DIFF search model=err:{errName (some me)} impl=ok")
       | "ok" :: hits, .ok mres =>
